@@ -40,6 +40,8 @@ type replayGen struct {
 	decls   []string
 	setup   []string
 	nvar    int
+	maxLine int
+	hdrs    [][]Term
 	maxCap  int64
 	ints    map[int64]bool
 }
@@ -53,7 +55,7 @@ func (r *replayGen) want(t Term) {
 
 func (r *replayGen) famInit(fam string) (Term, bool) {
 	g := r.g
-	if !g.declFam[fam] {
+	if !g.declFam[fam] || g.famDeclLine[fam] >= r.maxLine {
 		return Term{}, false
 	}
 	return Term{smtName(fam + "@0"), g.famSort[fam]}, true
@@ -111,6 +113,7 @@ func (r *replayGen) collect(t types.Type, comps []Term, depth int) {
 		for _, c := range comps {
 			r.want(c)
 		}
+		r.hdrs = append(r.hdrs, comps)
 		r.collectElems(u.Elem(), comps[0], comps[1], depth)
 	case *types.Struct:
 		off := 0
@@ -626,7 +629,7 @@ func replayObligation(p *Prog, fr *FuncResult, o *Obl, dir string) (out replayOu
 	if fn == nil || fn.Pkg == nil || fn.Parent() != nil {
 		return replayOutcome{Detail: "replay not possible: closure or synthetic function"}
 	}
-	r := &replayGen{g: g, tset: map[string]bool{}, vals: map[string]string{}, imports: map[string]string{}, pkg: fn.Pkg.Pkg, ptrVars: map[string]string{}, ints: map[int64]bool{}}
+	r := &replayGen{g: g, tset: map[string]bool{}, vals: map[string]string{}, imports: map[string]string{}, pkg: fn.Pkg.Pkg, ptrVars: map[string]string{}, ints: map[int64]bool{}, maxLine: o.Lines}
 	specFuncsSrc = map[string]string{}
 	for _, prm := range fn.Params {
 		r.collect(prm.Type(), g.params[prm.Name()].C, 3)
@@ -646,15 +649,19 @@ func replayObligation(p *Prog, fr *FuncResult, o *Obl, dir string) (out replayOu
 			}
 		}
 	}
-	for _, t := range r.terms {
-		if strings.Contains(t, "#cap@0") && strings.HasPrefix(t, "(select |H:") {
-			small = append(small, fmt.Sprintf("(assert (<= %s %d))", t, replayElems))
+	small = nil
+	var wf []string
+	for _, h := range r.hdrs {
+		if h[2].Sort != SInt {
+			continue
 		}
+		wf = append(wf, fmt.Sprintf("(assert (and (<= 0 %s) (<= 0 %s) (<= %s %s) (<= 0 %s)))", h[1].S, h[2].S, h[2].S, h[3].S, h[0].S))
+		small = append(small, fmt.Sprintf("(assert (<= %s %d))", h[3].S, replayElems))
 	}
 	getv := "(get-value (" + strings.Join(r.terms, " ") + "))\n"
 	var modelOut string
 	for _, variant := range []string{strings.Join(small, "\n") + "\n", ""} {
-		q := base + "\n" + variant + "(check-sat)\n" + getv
+		q := base + "\n" + strings.Join(wf, "\n") + "\n" + variant + "(check-sat)\n" + getv
 		f := filepath.Join(dir, "replay_"+sanitizeFile(o.Name)+".smt2")
 		os.WriteFile(f, []byte(q), 0o644)
 		for _, sv := range []string{"z3-new", "z3", "cvc5"} {
@@ -671,7 +678,12 @@ func replayObligation(p *Prog, fr *FuncResult, o *Obl, dir string) (out replayOu
 				break
 			}
 		}
-		os.Remove(f)
+		if os.Getenv("GOVC_KEEP") == "" {
+			os.Remove(f)
+		} else {
+			os.WriteFile(f+".out", []byte(modelOut), 0o644)
+			fmt.Println("replay query kept:", f)
+		}
 		if modelOut != "" {
 			break
 		}
